@@ -34,3 +34,28 @@ def write_fasta(path, contigs, width=60, eol=b'\n', final_newline=True, gz=False
 	with open(path, 'wb') as f:
 		f.write(data)
 	return path
+
+
+def soft_mask(seq):
+	"""Letter case as assemblies carry it: mostly upper case, some records soft-masked (lower-case stretches inside upper case), some
+	entirely lower case, some lower case with upper-case N runs. Drawn from a generator of its own (seeded by the content), so the
+	caller's random stream is the same with and without it."""
+	import random as _r
+	r = _r.Random(len(seq) * 1000003 + sum(seq[:64]))
+	c = r.random()
+	if c < 0.55 or len(seq) < 40:
+		return seq
+	if c < 0.65:
+		return seq.lower()
+	b = bytearray(seq)
+	if c < 0.72:
+		b = bytearray(seq.lower())
+		for _ in range(r.randint(1, 3)):
+			a = r.randrange(len(b) - 8)
+			b[a:a + 5] = b'NNNNN'
+		return bytes(b)
+	for _ in range(r.randint(1, 6)):
+		a = r.randrange(len(b) - 20)
+		e = a + r.randint(1, max(2, len(b) // 4))
+		b[a:e] = bytes(b[a:e]).lower()
+	return bytes(b)
